@@ -107,8 +107,9 @@ class IterModel:
                     passes=trk.ns.iteration_number,
                     todo=sorted(W.node_of(c.address.address) for c in trk.ns.todo))
 
-    def do(self, act):
-        """returns (status, value, passes, per-pass values of evaluated cells)"""
+    def do(self, act, variant='str'):
+        """returns (status, value, passes, per-pass values of evaluated cells);
+        variant: the address as a string, in a list, or from a generator"""
         from pycel import _verif
         from pycel.excelutil import _IterativeEvalTracker
         passes = []
@@ -133,8 +134,14 @@ class IterModel:
             prev_sink = _verif.set_sink(sink)
             try:
                 tol = act['tol'] / self.scale if act['tol'] else None
-                got = self.m.evaluate(W.addr(act['n']), iterations=act['iterations'],
-                                      tolerance=tol)
+                a = W.addr(act['n'])
+                spelled = a if variant == 'str' else [a] if variant == 'list1' else (x for x in [a])
+                got = self.m.evaluate(spelled, iterations=act['iterations'], tolerance=tol)
+                if variant != 'str':
+                    if not isinstance(got, (list, tuple)) or len(got) != 1:
+                        return 'exc', (f'evaluate({variant} of one address) returned {got!r}, '
+                                       'not a sequence of one value'), None
+                    got = got[0]
             finally:
                 _verif.set_sink(prev_sink)
                 _IterativeEvalTracker.inc_iteration_number = orig
@@ -173,7 +180,8 @@ def job(arg):
     def on_step(model, s, act, spec_ret, t, hist):
         out['cases'] += 1
         out['keys'].add(hash((s, json.dumps(act, sort_keys=True))))
-        status, got, passes = model.do(act)
+        status, got, passes = model.do(act, rnd.choice(('str', 'str', 'list1', 'gen1'))
+                                       if act['op'] == 'evaluate' else 'str')
         case = dict(workbook=name, cells=W.cells(wb)[0], history=list(hist))
         if status == 'exc':
             out['violations'].append((f'{act} raised {got} [{name}]', case))
